@@ -34,3 +34,15 @@ Theorem C08_unsound_criteria_refuted :
   In [2; 1] (front (exhaustive_vectors next (fun _ => true) obj 1)) /\ ~ In [2; 1] (front (pruned_vectors next (fun _ => true) obj crit 1)).
 Proof. vm_compute. split; [right; left; reflexivity|intros [H|[]]; discriminate]. Qed.
 Print Assumptions C08_unsound_criteria_refuted.
+
+(* where the soundness of the criteria comes from: if two prefixes of equal length admit the same suffixes, and objectives and
+   validity depend on the prefix only through terms in which they are monotone (a prefix at least as good on those terms is at
+   least as good, and at least as valid, under EVERY suffix), then those terms are sound criteria and the front is exact *)
+Theorem C08_monotone_terms_exact : forall next valid obj crit n,
+  (forall j k p q a, (j + k = n)%nat -> In p (exts next j []) -> In q (exts next j []) -> In a (exts next k p) ->
+     exists c, a = p ++ c /\ In (q ++ c) (exts next k q)) ->
+  (forall p q c, length p = length q -> vle (crit q) (crit p) = true ->
+     vle (obj (q ++ c)) (obj (p ++ c)) = true /\ (valid (p ++ c) = true -> valid (q ++ c) = true)) ->
+  forall f, In f (front (pruned_vectors next valid obj crit n)) <-> In f (front (exhaustive_vectors next valid obj n)).
+Proof. intros next valid obj crit n H1 H2. apply pruned_front_exact. apply monotone_terms_sound; assumption. Qed.
+Print Assumptions C08_monotone_terms_exact.
